@@ -88,6 +88,27 @@ impl Selector {
 
         let single_selector = &self.vec[id];
         let epoll = &single_selector.epoll;
+        #[cfg(may_verif)]
+        let timeout_ms = if crate::verif::active() {
+            use std::os::fd::AsRawFd;
+            let mut pfd = libc::pollfd {
+                fd: single_selector.epoll.0.as_raw_fd(),
+                events: libc::POLLIN,
+                revents: 0,
+            };
+            // if nothing is pending, block virtually until wakeup or the computed timeout
+            if unsafe { libc::poll(&mut pfd, 1, 0) } == 0 {
+                let dur = if timeout_ms.is_none() {
+                    None
+                } else {
+                    timeout_ms.duration()
+                };
+                crate::verif::idle_wait(single_selector as *const _ as usize, dur);
+            }
+            EpollTimeout::ZERO
+        } else {
+            timeout_ms
+        };
 
         // Wait for epoll events for at most timeout_ms milliseconds
         let n = epoll.wait(events, timeout_ms)?;
@@ -154,6 +175,8 @@ impl Selector {
         let buf = 1u64.to_le_bytes();
         let ret = write(&self.vec[id].evfd, &buf);
         trace!("wakeup id={id:?}, ret={ret:?}");
+        #[cfg(may_verif)]
+        crate::verif::notify(&self.vec[id] as *const _ as usize);
     }
 
     // register io event to the selector
